@@ -7,6 +7,7 @@ require (
 	github.com/containerd/ttrpc v1.2.7
 	github.com/opencontainers/runtime-spec v1.1.0
 	github.com/opencontainers/runtime-tools v0.9.0
+	github.com/sirupsen/logrus v1.9.3
 	google.golang.org/grpc v1.57.1
 	google.golang.org/protobuf v1.34.1
 )
@@ -16,7 +17,6 @@ require (
 	github.com/golang/protobuf v1.5.3 // indirect
 	github.com/knqyf263/go-plugin v0.8.1-0.20240827022226-114c6257e441 // indirect
 	github.com/moby/sys/mountinfo v0.6.2 // indirect
-	github.com/sirupsen/logrus v1.9.3 // indirect
 	github.com/syndtr/gocapability v0.0.0-20200815063812-42c35b437635 // indirect
 	github.com/tetratelabs/wazero v1.9.0 // indirect
 	golang.org/x/sys v0.21.0 // indirect
